@@ -1756,6 +1756,10 @@ type CompoundIndex = BTreeMap<Vec<OrderedPropertyValue>, Vec<u64>>;
 /// 2. `constraints` - Constraint definitions (`RwLock`)
 /// 3. `btree_indexes` - In-memory indexes (`RwLock`)
 /// 4. Store operations - Internal `TensorStore` locking
+///
+/// `structure_lock` is taken after `batch_unique_lock` and before everything
+/// else; the `adjacency_locks` stripes are leaf locks (nothing is acquired
+/// while one is held).
 pub struct GraphEngine {
     store: TensorStore,
     node_counter: AtomicU64,
@@ -1774,6 +1778,11 @@ pub struct GraphEngine {
     /// (`node:N:out` / `node:N:in`), so concurrent edge changes on one node
     /// cannot lose each other's list entries.
     adjacency_locks: Vec<Mutex<()>>,
+    /// Keeps node/edge deletion apart from the operations that read a record
+    /// or an existence check and then write: `delete_node` / `delete_edge`
+    /// hold it exclusively, `create_edge`, `update_edge`, `update_node` and the
+    /// label changes hold it shared (they stay concurrent with each other).
+    structure_lock: RwLock<()>,
     /// Whether the label index has been initialized (for lazy auto-creation).
     label_index_initialized: AtomicBool,
     /// Whether the edge type index has been initialized (for lazy auto-creation).
@@ -1833,6 +1842,7 @@ impl GraphEngine {
             geo_indexes: RwLock::new(HashMap::new()),
             index_locks: create_index_locks(lock_count),
             adjacency_locks: create_adjacency_locks(lock_count),
+            structure_lock: RwLock::new(()),
             label_index_initialized: AtomicBool::new(false),
             edge_type_index_initialized: AtomicBool::new(false),
             constraints: RwLock::new(HashMap::new()),
@@ -1904,6 +1914,7 @@ impl GraphEngine {
             geo_indexes: RwLock::new(HashMap::new()),
             index_locks: create_index_locks(config.index_lock_count),
             adjacency_locks: create_adjacency_locks(config.index_lock_count),
+            structure_lock: RwLock::new(()),
             label_index_initialized: AtomicBool::new(label_index_exists),
             edge_type_index_initialized: AtomicBool::new(edge_type_index_exists),
             constraints: RwLock::new(constraints),
@@ -1955,6 +1966,7 @@ impl GraphEngine {
             geo_indexes: RwLock::new(HashMap::new()),
             index_locks: create_index_locks(config.index_lock_count),
             adjacency_locks: create_adjacency_locks(config.index_lock_count),
+            structure_lock: RwLock::new(()),
             label_index_initialized: AtomicBool::new(label_index_exists),
             edge_type_index_initialized: AtomicBool::new(edge_type_index_exists),
             constraints: RwLock::new(constraints),
@@ -3316,6 +3328,9 @@ impl GraphEngine {
         // Ensure edge type index exists (lazy init on first edge creation)
         self.ensure_edge_type_index();
 
+        // No endpoint can be deleted between the existence checks and the list updates.
+        let _structure = self.structure_shared();
+
         // Verify both nodes exist
         if !self.node_exists(from) {
             return Err(GraphError::NodeNotFound(from));
@@ -3380,6 +3395,16 @@ impl GraphEngine {
         self.index_edge_properties(id, &edge_type, &properties);
 
         Ok(id)
+    }
+
+    /// Shared hold of `structure_lock` (see the field's documentation).
+    fn structure_shared(&self) -> parking_lot::RwLockReadGuard<'_, ()> {
+        self.structure_lock.read()
+    }
+
+    /// Exclusive hold of `structure_lock` (see the field's documentation).
+    fn structure_exclusive(&self) -> parking_lot::RwLockWriteGuard<'_, ()> {
+        self.structure_lock.write()
     }
 
     /// Locks the stripe guarding the adjacency list stored under `key`.
@@ -3579,6 +3604,9 @@ impl GraphEngine {
         labels: Option<Vec<String>>,
         properties: HashMap<String, PropertyValue>,
     ) -> Result<()> {
+        // The node cannot be deleted between reading its record and writing it back.
+        let _structure = self.structure_shared();
+
         // Get old node for index maintenance
         let old_node = self.get_node(id)?;
 
@@ -3664,6 +3692,7 @@ impl GraphEngine {
     /// # Errors
     /// Returns `NodeNotFound` if the node doesn't exist.
     pub fn add_label(&self, id: u64, label: &str) -> Result<()> {
+        let _structure = self.structure_shared();
         let node = self.get_node(id)?;
 
         // Check if label already exists
@@ -3702,6 +3731,7 @@ impl GraphEngine {
     /// # Errors
     /// Returns `NodeNotFound` if the node doesn't exist.
     pub fn remove_label(&self, id: u64, label: &str) -> Result<()> {
+        let _structure = self.structure_shared();
         let node = self.get_node(id)?;
 
         // Check if label exists
@@ -3767,6 +3797,9 @@ impl GraphEngine {
     /// Returns `EdgeNotFound` if the edge doesn't exist.
     #[allow(clippy::needless_pass_by_value)] // ownership avoids caller clones
     pub fn update_edge(&self, id: u64, properties: HashMap<String, PropertyValue>) -> Result<()> {
+        // The edge cannot be deleted between reading its record and writing it back.
+        let _structure = self.structure_shared();
+
         // Get old edge for index maintenance
         let old_edge = self.get_edge(id)?;
 
@@ -6440,6 +6473,7 @@ impl GraphEngine {
     /// # Errors
     /// Returns `EdgeNotFound` if the edge doesn't exist, or a storage error on failure.
     pub fn delete_edge(&self, edge_id: u64) -> Result<()> {
+        let _structure = self.structure_exclusive();
         let edge = self.get_edge(edge_id)?;
 
         // Unindex edge properties
@@ -6483,6 +6517,9 @@ impl GraphEngine {
     /// Returns `NodeNotFound` if the node doesn't exist, or `PartialDeletionError`
     /// if some connected edges fail to delete.
     pub fn delete_node(&self, id: u64) -> Result<()> {
+        // No edge of this node can be created, and no record rewritten, while it is taken apart.
+        let _structure = self.structure_exclusive();
+
         // Get node for index cleanup before deletion
         let node = self.get_node(id)?;
 
@@ -8184,6 +8221,9 @@ impl GraphEngine {
         } else {
             None
         };
+
+        // No endpoint can be deleted between validation and the list updates.
+        let _structure = self.structure_shared();
 
         // Phase 1: Validate all source/target nodes exist and constraints
         for (idx, edge) in edges.iter().enumerate() {
